@@ -75,6 +75,35 @@ fn pairwise(all: &[(String, Built)], d: &mut Vec<String>) {
             1
         }
     };
+    // the classification of the terms (categories, modifier) is part of what the read API shows; ontologies built with
+    // the documented defaults must agree on it, too
+    let classify = |ont: &hpo::Ontology| -> Vec<(u32, Vec<u32>, bool)> {
+        use hpo::annotations::AnnotationId;
+        let mut v: Vec<(u32, Vec<u32>, bool)> = ont.iter().map(|t| (t.id().as_u32(), t.categories().iter().map(|c| c.as_u32()).collect(), t.is_modifier())).collect();
+        v.push((u32::MAX, ont.categories().iter().map(|c| c.as_u32()).collect(), false));
+        v.push((u32::MAX - 1, ont.modifier().iter().map(|c| c.as_u32()).collect(), false));
+        v.sort();
+        v
+    };
+    let mut first_class: std::collections::BTreeMap<bool, (String, Vec<(u32, Vec<u32>, bool)>)> = Default::default();
+    for (name, b) in all {
+        if let Ok(ont) = b {
+            if let Ok(c) = catch(|| classify(ont)) {
+                // ontologies with defaults (builder-defaults, binary, text) form one group, minimal builds another
+                let with_defaults = !name.starts_with("builder/");
+                match first_class.get(&with_defaults) {
+                    None => {
+                        first_class.insert(with_defaults, (name.clone(), c));
+                    }
+                    Some((n0, c0)) => {
+                        if let Some((a, b2)) = c0.iter().zip(c.iter()).find(|(a, b2)| a != b2) {
+                            d.push(format!("{n0} and {name} were built from the same facts but classify terms differently: {:?} vs {:?} (id, categories, is_modifier; id 4294967295 = Ontology::categories(), 4294967294 = Ontology::modifier())", a, b2));
+                        }
+                    }
+                }
+            }
+        }
+    }
     let mut first: [Option<(String, Expected)>; 3] = [None, None, None];
     for (name, b) in all {
         match b {
@@ -203,6 +232,14 @@ pub fn big_case(seed: u64, jax: bool) -> Vec<String> {
         }
         for p in ps {
             scn.edges.push((p, *id));
+        }
+    }
+    // a few terms without any link (as obsolete terms are in real data): nothing but HP:1 is "the root"
+    for j in 0..3u32 {
+        let id = 9_000_000 + j * 17 + (seed % 13) as u32;
+        if !ids.contains(&id) {
+            ids.push(id);
+            scn.terms.push(TermSpec { id, name: format!("T{id}"), obsolete: true, repl: None });
         }
     }
     for _ in 0..rng.range(30, 120) {
